@@ -156,7 +156,13 @@ func (c *otApplyContext) applyGSUB(table tables.GSUBLookup) bool {
 		}
 
 	case tables.MultipleSubs:
-		c.applySubsSequence(data.Sequences[index].SubstituteGlyphIDs)
+		seq := data.Sequences[index].SubstituteGlyphIDs
+		// pathological cases: do not grow the buffer beyond its length budget
+		// (upstream fails the allocation in that case)
+		if b := c.buffer; len(seq) > 1 && len(b.outInfo)+len(b.Info)-b.idx+len(seq) > b.maxLen {
+			return false
+		}
+		c.applySubsSequence(seq)
 
 	case tables.AlternateSubs:
 		alternates := data.AlternateSets[index].AlternateGlyphIDs
